@@ -18,7 +18,8 @@ func init() {
 			"a gate or the socket at teardown; distinct_nontrivial = distinct (cause set, blocked set) fingerprints among those.",
 		Assumptions: []string{
 			"'bounded time' is restated as: after the last harness action the teardown reaches completion without further input; a dead state is proven from two identical all-blocked goroutine censuses, never inferred from a timeout",
-			"flood control is off in these scenarios (no library timers besides the 20 ms ping ticker, which the oracle recognises)",
+			"flood control is off except in the dedicated flood batches, where the sender sleeps inside write at teardown (timer sites are recognised by the oracle: never a dead state)",
+			"delay injection: in half of the scenarios the capturing logger yields or sleeps 20..200 us at PRNG-chosen library log sites (recv/send loops, before error-triggered closes, inside Close)",
 			"outside the claim and not generated: Close from a foreground/internal handler; a coincident public Close when the reconnect is issued inside the DISCONNECTED handler",
 		},
 		Plan: func(tier string, seed int64) []Batch {
@@ -160,6 +161,7 @@ func runC07(c *Ctx) {
 	procs, salt := c.Arg("procs", "?"), c.Arg("salt", "")
 	logger := rig.NewCapLogger(nil)
 	logger.Discard = func(r *rig.LogRecord) bool { return true }
+	lifeLogger = logger
 	if c.Arg("mode", "") == "flood" {
 		k := c.ArgInt("k", 0)
 		causes := []string{"close", "eof", "cancel", "readerr", "writeerr", "close"}
